@@ -118,6 +118,21 @@ static Verdict run(const Json::Value& sc) {
     }
   }
   if (!v.ok) return v;
+  // systemd_restart pauses by blocking for its post_action_delay before it answers STOP: when nothing but
+  // restart actions is configured, dry and wet runs take exactly the same (virtual) time
+  {
+    bool onlyRestart = true;
+    for (auto& rs : sc["config"]["rulesets"])
+      if (killActionOf(rs)["name"].asString() != "systemd_restart") onlyRestart = false;
+    if (onlyRestart && !sc["meta"].get("percg", false).asBool()) {
+      for (size_t t = 0; t < D.tick_ms.size() && t < W.tick_ms.size(); t++)
+        if (D.tick_ms[t] != W.tick_ms[t]) {
+          v.fail("tick " + std::to_string(t) + " starts at " + std::to_string(D.tick_ms[t]) + " ms in the dry run and at " + std::to_string(W.tick_ms[t]) + " ms in the wet run: the restart action did not hold its ruleset for the same time");
+          return v;
+        }
+      v.labels.push_back("restart_only_timing_compared");
+    }
+  }
   if (sc["meta"].get("percg", false).asBool()) {
     // several instances per ruleset and tick: only the absence of side effects is judged
     v.labels.push_back("restart_under_ruleset_cgroup");
